@@ -6,7 +6,7 @@
    its flag reader on the same flag string, its set semantics. *)
 From RX Require Import Base.Prelude Base.InvList Tables.Consts Model.Case Model.Op Model.Engine Model.Matcher
      Model.Compiler Model.Api Spec.Syntax Spec.Sem Spec.Parse Proofs.EngineFacts Proofs.MatcherFacts
-     Proofs.EngineCorollaries Proofs.LeafFacts Proofs.SmallFacts Proofs.LowerFacts Proofs.QuantLaws
+     Proofs.EngineCorollaries Proofs.LeafFacts Proofs.SmallFacts Proofs.LowerFacts Spec.CharSet Proofs.QuantLaws Proofs.OrderFacts
      Proofs.PlainPattern Proofs.PlainSpec Proofs.GroupGrammar Proofs.NullableFacts Proofs.ScanFacts Proofs.FrameFacts Proofs.FragmentApi.
 
 (* ---------------------------------------------------------------- one-step unfoldings *)
@@ -92,6 +92,73 @@ Let multi := s_m fl.
 Let n := length input.
 Let E (r : re) (p : nat) : list nat := ends fl input r p.
 Let SE (rs : list re) (A : list nat) : list nat := seq_ends input fl rs A.
+Hypothesis Hfit : (N.of_nat n < umax)%N.
+(* in priority order *)
+Let O (r : re) (m : nat) (e : env) : list nat := map fst (Sem.R fl input r m e).
+Let OS (rs : list re) (m : nat) (e : env) : list nat := map fst (seqR input fl rs m e).
+
+Lemma seqR_app l1 l2 : forall m e, seqR input fl (l1 ++ l2) m e
+  = flat_map (fun je => seqR input fl l2 (fst je) (snd je)) (seqR input fl l1 m e).
+Proof.
+  induction l1 as [|x t IH]; intros m e.
+  - cbn [app seqR flat_map fst snd]. rewrite app_nil_r. reflexivity.
+  - cbn [app seqR]. rewrite flat_map_assoc. apply flat_map_ext. intros je. apply IH.
+Qed.
+Lemma OS_app l1 l2 (D1 D2 : nat -> list nat) :
+  (forall m e, m <= n -> OS l1 m e = D1 m) -> (forall m e, m <= n -> OS l2 m e = D2 m) ->
+  (forall m q, m <= n -> In q (D1 m) -> q <= n) ->
+  forall m e, m <= n -> OS (l1 ++ l2) m e = flat_map D2 (D1 m).
+Proof.
+  intros H1 H2 Hle m e Hm. unfold OS. rewrite seqR_app.
+  rewrite (map_fst_flat_map _ D2).
+  - fold (OS l1 m e). rewrite (H1 m e Hm). reflexivity.
+  - intros je Hje. apply (H2 (fst je) (snd je)). apply (Hle m); [exact Hm|].
+    rewrite <- (H1 m e Hm). unfold OS. apply in_map. exact Hje.
+Qed.
+Lemma OS_one r m e : OS [r] m e = O r m e.
+Proof.
+  unfold OS, O. cbn [seqR]. rewrite (map_fst_flat_map _ (fun q => [q])); [apply fm_single|].
+  intros je _. reflexivity.
+Qed.
+Lemma OS_run cs m e : m <= n -> OS (map RChar cs) m e = lit input ci cs m.
+Proof. intros Hm. exact (atom_R input ci fl eq_refl cs m e Hm). Qed.
+Lemma OS_seq rs m e : O (RSeq rs) m e = OS rs m e.
+Proof. reflexivity. Qed.
+Lemma O_alt rs m e : O (RAlt rs) m e = flat_map (fun r => O r m e) rs.
+Proof.
+  unfold O. change (Sem.R fl input (RAlt rs) m e) with
+    ((fix go (l : list re) : list (nat * env) := match l with [] => [] | x :: t => Sem.R fl input x m e ++ go t end) rs).
+  induction rs as [|x t IH]; [reflexivity|]. cbn [flat_map]. rewrite map_app, IH. reflexivity.
+Qed.
+Lemma O_group g r m e : O (RGroup g r) m e = O r m e.
+Proof. unfold O. cbn [Sem.R]. rewrite map_map. apply map_ext. intros je. reflexivity. Qed.
+(* leaves whose ordered results do not depend on the captures so far *)
+Lemma quantR_char_env c mn mx g : forall fuel k i e e',
+  map fst (quantR (Sem.R fl input (RChar c)) mn mx g fuel k i e)
+  = map fst (quantR (Sem.R fl input (RChar c)) mn mx g fuel k i e').
+Proof.
+  induction fuel as [|f IH]; intros k i e e'; [reflexivity|]. cbn [quantR].
+  assert (Hm : map fst (if mx_allows k mx then
+                 flat_map (fun je : nat * env => let '(j, e'0) := je in
+                             if Nat.eqb j i then [(j, e'0)] else quantR (Sem.R fl input (RChar c)) mn mx g f (S k) j e'0)
+                          (Sem.R fl input (RChar c) i e) else [])
+             = map fst (if mx_allows k mx then
+                 flat_map (fun je : nat * env => let '(j, e'0) := je in
+                             if Nat.eqb j i then [(j, e'0)] else quantR (Sem.R fl input (RChar c)) mn mx g f (S k) j e'0)
+                          (Sem.R fl input (RChar c) i e') else [])).
+  { destruct (mx_allows k mx); [|reflexivity]. cbn [Sem.R]. unfold one_charR.
+    destruct (char_at input i) as [x|]; [|reflexivity]. destruct (lit_eq (s_i fl) c x); [|reflexivity].
+    cbn [flat_map]. rewrite !app_nil_r. destruct (Nat.eqb (S i) i); [reflexivity|]. apply IH. }
+  destruct g; rewrite !map_app; rewrite Hm; destruct (N.leb mn (N.of_nat k)); reflexivity.
+Qed.
+Lemma O_quant_char c k rel m e : O (RQuant (RChar c) (qmin k) (qmaxo k) (negb rel)) m e = DqO input ci multi c k rel m.
+Proof. unfold O, DqO. cbn [Sem.R]. apply quantR_char_env. Qed.
+Lemma O_anchor (eol : bool) m e : O (if eol then REol else RBol) m e = DanO input ci multi eol m.
+Proof.
+  unfold O, DanO. destruct eol; cbn [Sem.R].
+  - change (eol_at (fl_of ci multi) input m) with (eol_at fl input m). destruct (eol_at fl input m); reflexivity.
+  - change (bol_at (fl_of ci multi) input m) with (bol_at fl input m). destruct (bol_at fl input m); reflexivity.
+Qed.
 
 Lemma SE_app l1 l2 A : SE (l1 ++ l2) A = SE l2 (SE l1 A).
 Proof.
@@ -106,7 +173,7 @@ Proof.
 Qed.
 Lemma SE_run cs m q : m <= n -> (In q (SE (map RChar cs) [m]) <-> In q (lit input ci cs m)).
 Proof.
-  intros Hm. unfold SE. rewrite (atom_ends input ci fl eq_refl cs m q Hm). unfold lit. fold n.
+  clear Hfit. intros Hm. unfold SE. rewrite (atom_ends input ci fl eq_refl cs m q Hm). unfold lit. fold n.
   destruct (Nat.ltb n (m + length cs)) eqn:L.
   - apply Nat.ltb_lt in L. split; [intros (H & _); lia|intros []].
   - apply Nat.ltb_ge in L. destruct (starts_with (ceq ci) cs (skipn m input)).
@@ -127,6 +194,12 @@ Proof.
   - unfold E, alt_re. rewrite ends_alt. split; intros (z & Hz & Hq); exists z; (split; [|exact Hq]).
     + apply in_rev. exact Hz.
     + apply in_rev in Hz. exact Hz.
+Qed.
+Lemma alt_re_O bs p e : bs <> [] -> O (alt_re bs) p e = flat_map (fun x => O x p e) (rev bs).
+Proof.
+  intros Hne. destruct bs as [|x [|y t]]; [contradiction| |].
+  - cbn [alt_re rev app flat_map]. rewrite app_nil_r. reflexivity.
+  - unfold alt_re. apply O_alt.
 Qed.
 
 (* a quantified character *)
@@ -152,7 +225,8 @@ Proof. destruct eol; reflexivity. Qed.
 Definition Q_b (b : branch) : Prop :=
   ok_b xpath b = true -> forall post st acc fuel, term_b post -> 6 * length (show_b b) + 6 <= fuel ->
     exists rs st', p_branch fuel xpath st (show_b b ++ post) acc = PV (RSeq (rev acc ++ rs), st') post
-      /\ (forall m q, m <= n -> (In q (SE rs [m]) <-> In q (Db input ci multi b m))).
+      /\ (forall m q, m <= n -> (In q (SE rs [m]) <-> In q (Db input ci multi b m)))
+      /\ (forall m e, m <= n -> OS rs m e = DbO input ci multi b m).
 
 Definition Q_a (a : alt) : Prop :=
   ok_a xpath a = true -> forall post st acc f1 f2, term_a post ->
@@ -160,7 +234,9 @@ Definition Q_a (a : alt) : Prop :=
     exists b st1 rest1 bs st', p_branch f1 xpath st (show_a a ++ post) [] = PV (b, st1) rest1
       /\ p_more f2 xpath st1 rest1 (b :: acc) = PV (bs, st') post /\ bs <> []
       /\ (forall p q, p <= n -> ((exists x, In x bs /\ In q (E x p))
-                                 <-> (exists x, In x acc /\ In q (E x p)) \/ In q (Da input ci multi a p))).
+                                 <-> (exists x, In x acc /\ In q (E x p)) \/ In q (Da input ci multi a p)))
+      /\ (forall p e, p <= n -> flat_map (fun x => O x p e) (rev bs)
+                                 = flat_map (fun x => O x p e) (rev acc) ++ DaO input ci multi a p).
 
 Theorem spec_parses : (forall b, Q_b b) /\ (forall a, Q_a a).
 Proof.
@@ -172,7 +248,7 @@ Proof.
     + destruct (fuel - length cs) as [|f] eqn:Ef; [lia|]. rewrite p_branch_S.
       assert (Hr : rev (rev (map RChar cs) ++ acc) = rev acc ++ map RChar cs) by (rewrite rev_app_distr, rev_involutive; reflexivity).
       destruct Ht as [->|(t & [->| ->])]; rewrite Hr; reflexivity.
-    + intros m q Hm. cbn [Db]. apply SE_run. exact Hm.
+    + split; [intros m q Hm; cbn [Db]; apply SE_run; exact Hm|intros m e Hm; cbn [DbO]; apply OS_run; exact Hm].
   - (* BGrp *) intros cs cap a IHa b' IHb Hok post st acc fuel Ht Hf.
     cbn [ok_b] in Hok. apply andb_true_iff in Hok as [Hok Okb]. apply andb_true_iff in Hok as [Hok Oka].
     apply andb_true_iff in Hok as [Ocs Hcx]. cbn [show_b] in Hf |- *.
@@ -189,7 +265,8 @@ Proof.
     rewrite p_piece_S.
     (* the group *)
     assert (Hatom : exists g st2, p_atom (S f3) xpath st (40%N :: opt ++ inner ++ 41%N :: rest ++ post) = PV (g, st2) (rest ++ post)
-              /\ (forall p q, p <= n -> (In q (E g p) <-> In q (Da input ci multi a p)))).
+              /\ (forall p q, p <= n -> (In q (E g p) <-> In q (Da input ci multi a p)))
+              /\ (forall p e, p <= n -> O g p e = DaO input ci multi a p)).
     { destruct cap; subst opt; cbn [app].
       - rewrite p_atom_cap.
         2:{ pose proof (head_fine_a xpath a (41%N :: rest ++ post) Oka ltac:(right; eexists; reflexivity)) as Hh. fold inner in Hh.
@@ -198,27 +275,31 @@ Proof.
         destruct f3 as [|f2]; [lia|].
         destruct (IHa Oka (41%N :: rest ++ post) {| opened := S (opened st); closed := closed st |} [] f2 f2
                     ltac:(right; eexists; reflexivity) ltac:(fold inner; lia) ltac:(fold inner; lia))
-          as (b1 & st1 & rest1 & bs & st' & E1 & E2 & Nbs & Sem).
+          as (b1 & st1 & rest1 & bs & st' & E1 & E2 & Nbs & Sem & SemO).
         fold inner in E1. rewrite p_regexp_S, E1. cbn [pbind]. rewrite E2. cbn [pbind]. fold (alt_re bs).
-        eexists _, _. split; [reflexivity|].
-        intros p q Hp. change (E (RGroup (S (opened st)) (alt_re bs)) p) with (E (alt_re bs) p).
-        rewrite (alt_re_sem bs p q Nbs), (Sem p q Hp). split; [intros [(x & [] & _)|H]; exact H|auto].
+        eexists _, _. split; [reflexivity|]. split.
+        { intros p q Hp. change (E (RGroup (S (opened st)) (alt_re bs)) p) with (E (alt_re bs) p).
+          rewrite (alt_re_sem bs p q Nbs), (Sem p q Hp). split; [intros [(x & [] & _)|H]; exact H|auto]. }
+        intros p e Hp. rewrite O_group, (alt_re_O bs p e Nbs), (SemO p e Hp). reflexivity.
       - cbn [orb] in Hcx. rewrite Hcx. rewrite p_atom_nc.
         destruct f3 as [|f2]; [lia|].
         destruct (IHa Oka (41%N :: rest ++ post) st [] f2 f2
                     ltac:(right; eexists; reflexivity) ltac:(fold inner; lia) ltac:(fold inner; lia))
-          as (b1 & st1 & rest1 & bs & st' & E1 & E2 & Nbs & Sem).
+          as (b1 & st1 & rest1 & bs & st' & E1 & E2 & Nbs & Sem & SemO).
         fold inner in E1. rewrite Hcx in E1, E2. rewrite p_regexp_S, E1. cbn [pbind]. rewrite E2. cbn [pbind]. fold (alt_re bs).
-        eexists _, _. split; [reflexivity|].
-        intros p q Hp. change (E (RNc (alt_re bs)) p) with (E (alt_re bs) p).
-        rewrite (alt_re_sem bs p q Nbs), (Sem p q Hp). split; [intros [(x & [] & _)|H]; exact H|auto]. }
-    destruct Hatom as (g & st2 & Eatom & Semg). rewrite Eatom. cbn [pbind].
+        eexists _, _. split; [reflexivity|]. split.
+        { intros p q Hp. change (E (RNc (alt_re bs)) p) with (E (alt_re bs) p).
+          rewrite (alt_re_sem bs p q Nbs), (Sem p q Hp). split; [intros [(x & [] & _)|H]; exact H|auto]. }
+        intros p e Hp. change (O (RNc (alt_re bs)) p e) with (O (alt_re bs) p e).
+        rewrite (alt_re_O bs p e Nbs), (SemO p e Hp). reflexivity. }
+    destruct Hatom as (g & st2 & Eatom & Semg & Og). rewrite Eatom. cbn [pbind].
     rewrite (head_fine_quant (rest ++ post)) by (apply (head_fine_b xpath); auto). cbn [pbind].
-    destruct (IHb Okb post st2 (g :: rev (map RChar cs) ++ acc) (S (S f3)) Ht ltac:(fold rest; lia)) as (rs & st' & Eb & Semb).
+    destruct (IHb Okb post st2 (g :: rev (map RChar cs) ++ acc) (S (S f3)) Ht ltac:(fold rest; lia)) as (rs & st' & Eb & Semb & Ob).
     fold rest in Eb. rewrite Eb.
     exists (map RChar cs ++ g :: rs), st'. split.
     + f_equal. f_equal. f_equal. cbn [rev]. rewrite rev_app_distr, rev_involutive, <- !app_assoc. cbn [app]. reflexivity.
-    + intros m q Hm. cbn [Db]. rewrite SE_app. change (g :: rs) with ([g] ++ rs). rewrite SE_app.
+    + split.
+      { intros m q Hm. cbn [Db]. rewrite SE_app. change (g :: rs) with ([g] ++ rs). rewrite SE_app.
       rewrite SE_in. split.
       * intros (k & Hk & Hq). apply SE_in in Hk. destruct Hk as (k1 & Hk1 & Hk).
         apply SE_run in Hk1; auto. apply SE_one in Hk.
@@ -231,7 +312,14 @@ Proof.
         assert (k1 <= n) by (apply lit_le in Hk1; tauto).
         assert (k <= n) by (eapply (proj2 (D_le input ci multi)); eauto).
         exists k. split; [|apply Semb; auto].
-        apply SE_in. exists k1. split; [apply SE_run; auto|]. apply SE_one. apply Semg; auto.
+        apply SE_in. exists k1. split; [apply SE_run; auto|]. apply SE_one. apply Semg; auto. }
+      intros m e Hm. cbn [DbO]. rewrite flat_map_assoc. change (g :: rs) with ([g] ++ rs).
+      apply (OS_app (map RChar cs) ([g] ++ rs) (lit input ci cs) (fun k0 => flat_map (DbO input ci multi b') (DaO input ci multi a k0))); auto.
+      * intros m0 e0 Hm0. apply OS_run. exact Hm0.
+      * intros m0 e0 Hm0. apply (OS_app [g] rs (DaO input ci multi a) (DbO input ci multi b')); auto.
+        -- intros m1 e1 Hm1. rewrite OS_one. apply Og. exact Hm1.
+        -- intros m1 q1 Hm1 Hq1. eapply (proj2 (DO_le ci input multi 0 Hfit)); eauto.
+      * intros m0 q0 Hm0 Hq0. apply lit_le in Hq0. tauto.
   - (* BQ *) intros cs c k rel b' IHb Hok post st acc fuel Ht Hf.
     cbn [ok_b] in Hok. apply andb_true_iff in Hok as [Hok Okb]. apply andb_true_iff in Hok as [Hok Hrx].
     apply andb_true_iff in Hok as [Ocs Oc]. cbn [show_b] in Hf |- *.
@@ -256,11 +344,12 @@ Proof.
       - apply (not_qmark_match (rest ++ post)). exact Hh. }
     rewrite Epiece. cbn [pbind].
     destruct (IHb Okb post st (RQuant (RChar c) (qmin k) (qmaxo k) (negb rel) :: rev (map RChar cs) ++ acc) (S (S f3)) Ht
-                ltac:(fold rest; lia)) as (rs & st' & Eb & Semb).
+                ltac:(fold rest; lia)) as (rs & st' & Eb & Semb & Ob).
     fold rest in Eb. rewrite Eb.
     exists (map RChar cs ++ RQuant (RChar c) (qmin k) (qmaxo k) (negb rel) :: rs), st'. split.
     + f_equal. f_equal. f_equal. cbn [rev]. rewrite rev_app_distr, rev_involutive, <- !app_assoc. cbn [app]. reflexivity.
-    + intros m q Hm. cbn [Db]. rewrite SE_app.
+    + split.
+      { intros m q Hm. cbn [Db]. rewrite SE_app.
       change (RQuant (RChar c) (qmin k) (qmaxo k) (negb rel) :: rs) with ([RQuant (RChar c) (qmin k) (qmaxo k) (negb rel)] ++ rs).
       rewrite SE_app. rewrite SE_in. split.
       * intros (k0 & Hk & Hq). apply SE_in in Hk. destruct Hk as (k1 & Hk1 & Hk).
@@ -273,7 +362,16 @@ Proof.
         assert (k1 <= n) by (apply lit_le in Hk1; tauto).
         assert (k0 <= n) by (eapply (Dq_le input ci multi); eauto).
         exists k0. split; [|apply Semb; auto].
-        apply SE_in. exists k1. split; [apply SE_run; auto|]. apply SE_one. rewrite Dq_flags. exact Hk.
+        apply SE_in. exists k1. split; [apply SE_run; auto|]. apply SE_one. rewrite Dq_flags. exact Hk. }
+      intros m e Hm. cbn [DbO]. rewrite flat_map_assoc.
+      change (RQuant (RChar c) (qmin k) (qmaxo k) (negb rel) :: rs) with ([RQuant (RChar c) (qmin k) (qmaxo k) (negb rel)] ++ rs).
+      apply (OS_app (map RChar cs) ([RQuant (RChar c) (qmin k) (qmaxo k) (negb rel)] ++ rs) (lit input ci cs)
+               (fun k0 => flat_map (DbO input ci multi b') (DqO input ci multi c k rel k0))); auto.
+      * intros m0 e0 Hm0. apply OS_run. exact Hm0.
+      * intros m0 e0 Hm0. apply (OS_app [RQuant (RChar c) (qmin k) (qmaxo k) (negb rel)] rs (DqO input ci multi c k rel) (DbO input ci multi b')); auto.
+        -- intros m1 e1 Hm1. rewrite OS_one. apply O_quant_char.
+        -- intros m1 q1 Hm1 Hq1. eapply (DqO_le ci input multi 0 Hfit); eauto.
+      * intros m0 q0 Hm0 Hq0. apply lit_le in Hq0. tauto.
   - (* BAn *) intros cs eol b' IHb Hok post st acc fuel Ht Hf.
     cbn [ok_b] in Hok. apply andb_true_iff in Hok as [Hok Okb]. apply andb_true_iff in Hok as [Ocs Hx].
     cbn [show_b] in Hf |- *. set (rest := show_b b') in *.
@@ -289,11 +387,12 @@ Proof.
     assert (Hh : head_fine (rest ++ post)) by (apply (head_fine_b xpath); auto).
     rewrite (head_fine_quant (rest ++ post) Hh). cbn [pbind].
     destruct (IHb Okb post st ((if eol then REol else RBol) :: rev (map RChar cs) ++ acc) (S (S f3)) Ht
-                ltac:(fold rest; lia)) as (rs & st' & Eb & Semb).
+                ltac:(fold rest; lia)) as (rs & st' & Eb & Semb & Ob).
     fold rest in Eb. rewrite Hx in Eb. rewrite Eb.
     exists (map RChar cs ++ (if eol then REol else RBol) :: rs), st'. split.
     + f_equal. f_equal. f_equal. cbn [rev]. rewrite rev_app_distr, rev_involutive, <- !app_assoc. cbn [app]. reflexivity.
-    + intros m q Hm. cbn [Db]. rewrite SE_app.
+    + split.
+      { intros m q Hm. cbn [Db]. rewrite SE_app.
       change ((if eol then REol else RBol) :: rs) with ([if eol then REol else RBol] ++ rs).
       rewrite SE_app. rewrite SE_in. split.
       * intros (k0 & Hk & Hq). apply SE_in in Hk. destruct Hk as (k1 & Hk1 & Hk).
@@ -306,13 +405,25 @@ Proof.
         assert (k1 <= n) by (apply lit_le in Hk1; tauto).
         assert (k0 <= n) by (eapply (Dan_le input ci multi); eauto).
         exists k0. split; [|apply Semb; auto].
-        apply SE_in. exists k1. split; [apply SE_run; auto|]. apply SE_one. rewrite Dan_flags. exact Hk.
+        apply SE_in. exists k1. split; [apply SE_run; auto|]. apply SE_one. rewrite Dan_flags. exact Hk. }
+      intros m e Hm. cbn [DbO]. rewrite flat_map_assoc.
+      change ((if eol then REol else RBol) :: rs) with ([if eol then REol else RBol] ++ rs).
+      apply (OS_app (map RChar cs) ([if eol then REol else RBol] ++ rs) (lit input ci cs)
+               (fun k0 => flat_map (DbO input ci multi b') (DanO input ci multi eol k0))); auto.
+      * intros m0 e0 Hm0. apply OS_run. exact Hm0.
+      * intros m0 e0 Hm0. apply (OS_app [if eol then REol else RBol] rs (DanO input ci multi eol) (DbO input ci multi b')); auto.
+        -- intros m1 e1 Hm1. rewrite OS_one. apply O_anchor.
+        -- intros m1 q1 Hm1 Hq1. eapply (DanO_le ci input multi 0); eauto.
+      * intros m0 q0 Hm0 Hq0. apply lit_le in Hq0. tauto.
   - (* AOne *) intros b IHb Hok post st acc f1 f2 Ht Hf1 Hf2. cbn [show_a ok_a] in *.
     assert (Htb : term_b post) by (destruct Ht as [->|(t & ->)]; [left; auto|right; eauto]).
-    destruct (IHb Hok post st [] f1 Htb ltac:(lia)) as (rs & st1 & Eb & Semb). cbn [rev app] in Eb.
+    destruct (IHb Hok post st [] f1 Htb ltac:(lia)) as (rs & st1 & Eb & Semb & Ob). cbn [rev app] in Eb.
     destruct f2 as [|f2]; [lia|].
     exists (RSeq rs), st1, post, (RSeq rs :: acc), st1. split; [exact Eb|]. split; [apply p_more_S_stop; exact Ht|].
-    split; [discriminate|]. intros p q Hp.
+    split; [discriminate|]. split.
+    2:{ intros p e Hp. change (DaO input ci multi (AOne b) p) with (DbO input ci multi b p).
+        cbn [rev]. rewrite flat_map_app. cbn [flat_map]. rewrite app_nil_r, OS_seq, (Ob p e Hp). reflexivity. }
+    intros p q Hp.
     assert (So : In q (E (RSeq rs) p) <-> In q (Db input ci multi b p)) by (apply (Semb p q Hp)).
     cbn [Da]. split.
     + intros (x & [<-|Hx] & Hq); [right; apply So; exact Hq|left; eauto].
@@ -321,13 +432,17 @@ Proof.
     apply andb_true_iff in Hok as [Okb Oka].
     rewrite app_length in Hf1, Hf2. cbn [length] in Hf1, Hf2.
     rewrite <- app_assoc. cbn [app].
-    destruct (IHb Okb (124%N :: show_a a' ++ post) st [] f1 ltac:(right; eexists; left; reflexivity) ltac:(lia)) as (rs & st1 & Eb & Semb).
+    destruct (IHb Okb (124%N :: show_a a' ++ post) st [] f1 ltac:(right; eexists; left; reflexivity) ltac:(lia)) as (rs & st1 & Eb & Semb & Ob).
     cbn [rev app] in Eb.
     destruct f2 as [|f2]; [lia|].
-    destruct (IHa Oka post st1 (RSeq rs :: acc) f2 f2 Ht ltac:(lia) ltac:(lia)) as (b2 & st2 & rest2 & bs & st' & E1 & E2 & Nbs & Sem).
+    destruct (IHa Oka post st1 (RSeq rs :: acc) f2 f2 Ht ltac:(lia) ltac:(lia)) as (b2 & st2 & rest2 & bs & st' & E1 & E2 & Nbs & Sem & SemO).
     exists (RSeq rs), st1, (124%N :: show_a a' ++ post), bs, st'. split; [exact Eb|]. split.
     { rewrite p_more_S_bar, E1. cbn [pbind]. exact E2. }
-    split; [exact Nbs|]. intros p q Hp.
+    split; [exact Nbs|]. split.
+    2:{ intros p e Hp. rewrite (SemO p e Hp).
+        change (DaO input ci multi (ACons b a') p) with (DbO input ci multi b p ++ DaO input ci multi a' p).
+        cbn [rev]. rewrite flat_map_app. cbn [flat_map]. rewrite app_nil_r, <- app_assoc, OS_seq, (Ob p e Hp). reflexivity. }
+    intros p q Hp.
     assert (So : In q (E (RSeq rs) p) <-> In q (Db input ci multi b p)) by (apply (Semb p q Hp)).
     rewrite (Sem p q Hp). cbn [Da]. rewrite in_app_iff. split.
     + intros [(x & [<-|Hx] & Hq)|Hq]; [right; left; apply So; exact Hq|left; eauto|right; right; exact Hq].
@@ -336,16 +451,18 @@ Qed.
 
 Theorem spec_parse_grammar a : ok_a xpath a = true ->
   exists r, spec_parse xpath (show_a a) = Valid r
-    /\ (forall p q, p <= n -> (In q (E r p) <-> In q (Da input ci multi a p))).
+    /\ (forall p q, p <= n -> (In q (E r p) <-> In q (Da input ci multi a p)))
+    /\ (forall p e, p <= n -> O r p e = DaO input ci multi a p).
 Proof.
   intros Hok. destruct spec_parses as [_ QA].
   destruct (QA a Hok [] {| opened := 0; closed := [] |} [] (8 * length (show_a a) + 15) (8 * length (show_a a) + 15)
-              ltac:(left; reflexivity) ltac:(lia) ltac:(lia)) as (b & st1 & rest1 & bs & st' & E1 & E2 & Nbs & Sem).
+              ltac:(left; reflexivity) ltac:(lia) ltac:(lia)) as (b & st1 & rest1 & bs & st' & E1 & E2 & Nbs & Sem & SemO).
   rewrite app_nil_r in E1.
   exists (alt_re bs). unfold spec_parse.
   replace (8 * length (show_a a) + 16) with (S (8 * length (show_a a) + 15)) by lia.
-  rewrite p_regexp_S, E1. cbn [pbind]. rewrite E2. cbn [pbind]. fold (alt_re bs). split; [reflexivity|].
-  intros p q Hp. rewrite (alt_re_sem bs p q Nbs), (Sem p q Hp). split; [intros [(x & [] & _)|H]; exact H|auto].
+  rewrite p_regexp_S, E1. cbn [pbind]. rewrite E2. cbn [pbind]. fold (alt_re bs). split; [reflexivity|]. split.
+  - intros p q Hp. rewrite (alt_re_sem bs p q Nbs), (Sem p q Hp). split; [intros [(x & [] & _)|H]; exact H|auto].
+  - intros p e Hp. rewrite (alt_re_O bs p e Nbs), (SemO p e Hp). reflexivity.
 Qed.
 End SPc.
 
@@ -388,7 +505,7 @@ Proof.
   (* the nullable probe *)
   pose proof (fragment_no_panic_no_out prog [] (proj1 (Facts [] eq_refl)) Hun 0 st0 (le_n 0) eq_refl) as NP0.
   destruct (matches prog [] 0 st0) as [s0|s0| |k0]; try contradiction; cbn [mres_bool rbind].
-  all: destruct (spec_parse_grammar xpath input sf a Hok) as (r & Espec & Sr).
+  all: destruct (spec_parse_grammar xpath input sf Hfit a Hok) as (r & Espec & Sr & _).
   all: eexists; exists r; split; [reflexivity|]; split; [exact Espec|]; unfold is_match; cbn [r_prog].
   all: pose proof (fragment_no_panic_no_out prog input (proj1 (Facts input Hfit)) Hun 0 st0 (Nat.le_0_l _) eq_refl) as NP.
   all: pose proof (fragment_is_match_iff prog input (proj1 (Facts input Hfit)) Hun 0 st0 (Nat.le_0_l _) eq_refl) as MI.
@@ -441,7 +558,8 @@ Theorem grammar_accepted fl a :
   (exists r, spec_parse (f_xpath fl) (show_a a) = Valid r) /\ (exists prog, compile true fl (show_a a) = Ok prog).
 Proof.
   intros Hok Hq Hx. split.
-  - destruct (spec_parse_grammar (f_xpath fl) [] {| s_i := false; s_m := false; s_s := false; s_x := false; s_q := false |} a Hok)
+  - destruct (spec_parse_grammar (f_xpath fl) [] {| s_i := false; s_m := false; s_s := false; s_x := false; s_q := false |}
+                (eq_refl : (N.of_nat (length (@nil N)) < umax)%N) a Hok)
       as (r & E & _). eauto.
   - destruct (parse_expr_grammar (show_a a) (f_xpath fl) (f_case fl) (f_single fl) [] (f_multi fl) 0 (eq_refl : (N.of_nat (length (@nil N)) < umax)%N) a Hok eq_refl)
       as (top & st' & Eparse & Hi & Hb & _ & _).
@@ -470,7 +588,7 @@ Proof.
   destruct PF as [(A1 & A2 & A3 & A4 & A5) Hx]. intros Hsq Hsx. cbn [rbind].
   set (pat := show_a a).
   destruct (parse_expr_grammar pat xpath (f_case fl) (f_single fl) [] (f_multi fl) 0 (eq_refl : (N.of_nat (length (@nil N)) < umax)%N) a Hok eq_refl)
-    as (top & st' & Eparse & Hi & Hb & _ & _ & Hfr).
+    as (top & st' & Eparse & Hi & Hb & _ & _ & Hfr & _).
   assert (Ecomp : compile true fl pat
                   = Ok (mk_program_unopt pat top (parens st') (f_case fl) (f_multi fl) false false)).
   { unfold compile. replace (f_literal fl) with false by congruence. replace (f_ws fl) with false by congruence.
@@ -600,4 +718,67 @@ Proof.
   intros Hq Hx. destruct (G Hq Hx) as (re & r & E & Er & Em). exists re, r. split; [exact E|]. split; [exact Er|].
   destruct (nullable_def true xpath (show_a a) fls re E) as (s' & Hn).
   unfold is_match in Em. rewrite Hn in Em. destruct (r_nullable re); cbn [mres_bool rbind] in Em; congruence.
+Qed.
+
+(* ---------------------------------------------------------------- the selected match (C02) *)
+(* The match the matcher reports from offset 0 is the specification's selected match: the leftmost
+   start position at which the ordered-choice semantics has a result, and its first result in
+   priority order (earlier alternative first, greedy quantifier longest first, reluctant shortest
+   first).  From the pattern and flag strings, on the grammar of Proofs/GroupGrammar.v. *)
+Theorem grammar_selected_match xpath a fls input :
+  ok_a xpath a = true -> existsb (N.eqb 59) fls = false -> (N.of_nat (length input) < umax)%N ->
+  match spec_flags xpath fls with
+  | Valid sf =>
+      s_q sf = false -> s_x sf = false ->
+      exists re r, regex_new true xpath (show_a a) fls = Ok re /\ spec_parse xpath (show_a a) = Valid r
+        /\ match matches (r_prog re) input 0 st0 with
+           | MTrue s' => exists k q e, first_match sf input r (length input + 2) 0 = Some (k, q, e)
+                                       /\ get_pend s' 0 = Some q
+           | MFalse _ => first_match sf input r (length input + 2) 0 = None
+           | MOut | MPanic _ => False
+           end
+  | _ => True
+  end.
+Proof.
+  intros Hok Hsep Hfit. pose proof (parse_flags_spec xpath fls Hsep) as PF. unfold regex_new.
+  destruct (parse_flags xpath fls) as [fl|e| |] eqn:Efl; destruct (spec_flags xpath fls) as [sf| |] eqn:Esf;
+    try contradiction; try exact I; try (destruct e; contradiction).
+  destruct PF as [(A1 & A2 & A3 & A4 & A5) Hx]. intros Hsq Hsx. cbn [rbind].
+  set (pat := show_a a).
+  destruct (parse_expr_grammar pat xpath (f_case fl) (f_single fl) [] (f_multi fl) 0
+              (eq_refl : (N.of_nat (length (@nil N)) < umax)%N) a Hok eq_refl)
+    as (top & st' & Eparse & Hi & Hb & _ & _).
+  assert (Ecomp : compile true fl pat
+                  = Ok (mk_program_unopt pat top (parens st') (f_case fl) (f_multi fl) false false)).
+  { unfold compile. replace (f_literal fl) with false by congruence. replace (f_ws fl) with false by congruence.
+    rewrite Hx, Eparse. cbn [rbind]. rewrite Hi, Nat.eqb_refl, Hb. reflexivity. }
+  rewrite Ecomp. cbn [rbind].
+  set (prog := mk_program_unopt pat top (parens st') (f_case fl) (f_multi fl) false false).
+  assert (Hun : p_hasbol prog = false /\ p_minlen prog = 0%N /\ p_prefix prog = None /\ p_icc prog = None /\ p_pre prog = [])
+    by (repeat split; reflexivity).
+  assert (Facts : forall inp, (N.of_nat (length inp) < umax)%N -> simple inp (f_case fl) (f_multi fl) false (parens st') top
+                   /\ (forall p, p <= length inp -> Rop inp (f_case fl) (f_multi fl) top p = DaO inp (f_case fl) (f_multi fl) a p)).
+  { intros inp Hfi. destruct (parse_expr_grammar pat xpath (f_case fl) (f_single fl) inp (f_multi fl) (parens st') Hfi a Hok eq_refl)
+      as (top' & st'' & Eparse' & _ & _ & G & _ & _ & S0).
+    rewrite Eparse in Eparse'. injection Eparse' as <- <-. split; [exact G|exact S0]. }
+  pose proof (fragment_no_panic_no_out prog [] (proj1 (Facts [] eq_refl)) Hun 0 st0 (le_n 0) eq_refl) as NP0.
+  destruct (matches prog [] 0 st0) as [s0|s0| |k0]; try contradiction; cbn [mres_bool rbind].
+  all: destruct (spec_parse_grammar xpath input sf Hfit a Hok) as (r & Espec & _ & Sr).
+  all: eexists; exists r; split; [reflexivity|]; split; [exact Espec|]; cbn [r_prog].
+  all: assert (E : forall m, m <= length input ->
+            map fst (R sf input r m []) = Rop input (p_case prog) (p_multi prog) (p_op prog) m)
+         by (intros m Hm; cbn [p_case p_multi p_op prog mk_program_unopt];
+             rewrite (proj2 (Facts input Hfit) m Hm), A1, A2; exact (Sr m [] Hm)).
+  all: pose proof (matches_unopt_spec prog input (proj1 (Facts input Hfit)) Hun 0 st0 (Nat.le_0_l _) eq_refl) as M.
+  all: destruct (matches prog input 0 st0) as [s'|s'| |k1]; try contradiction.
+  1,3: (destruct M as (k & q & rest & Hk & Hbefore & Hat & Hq & Hpend);
+        rewrite <- (E k) in Hat by lia;
+        destruct (R sf input r k []) as [|[q' e'] rest'] eqn:ER; [discriminate|];
+        cbn [map fst] in Hat; injection Hat as -> _;
+        exists k, q, e'; split; [|exact Hpend];
+        apply (first_match_spec sf input r _ 0 k q rest' e'); try lia; auto;
+        intros m Hm'; specialize (Hbefore m ltac:(lia)); rewrite <- (E m) in Hbefore by lia;
+        destruct (R sf input r m []); [reflexivity|discriminate]).
+  all: apply first_match_none; intros m Hm'; specialize (M m ltac:(lia)); rewrite <- (E m) in M by lia;
+       destruct (R sf input r m []); [reflexivity|discriminate].
 Qed.
